@@ -284,8 +284,6 @@ func (viso *VirtualISO) scanDirectory() error {
 }
 
 func (viso *VirtualISO) makeDirEntries(item *dirItem, joliet bool) error {
-	var totalSizeBytes sizeBytes
-
 	// '.' entry
 	dotEntry := directoryEntry{
 		FileFlags:            dirFlagDir,
@@ -321,8 +319,6 @@ func (viso *VirtualISO) makeDirEntries(item *dirItem, joliet bool) error {
 	} else {
 		item.dirEntry = append(item.dirEntry, dotEntry, dotDotEntry)
 	}
-
-	totalSizeBytes += dotEntry.size() + dotDotEntry.size()
 
 	// file entries
 	for _, fileItem := range item.files {
@@ -361,8 +357,6 @@ func (viso *VirtualISO) makeDirEntries(item *dirItem, joliet bool) error {
 			} else {
 				item.dirEntry = append(item.dirEntry, entry)
 			}
-
-			totalSizeBytes += entry.size()
 		}
 	}
 
@@ -388,18 +382,13 @@ func (viso *VirtualISO) makeDirEntries(item *dirItem, joliet bool) error {
 		} else {
 			item.dirEntry = append(item.dirEntry, entry)
 		}
-
-		totalSizeBytes += entry.size()
 	}
 
-	// total size must be integer number of sectors so ceil it if needed
-	totalSizeBytes = totalSizeBytes.sectors().bytes()
-
-	// set correct size to first entry
+	// set correct size (integer number of sectors, records don't cross sector border) to first entry
 	if joliet {
-		item.dirEntryJoliet[0].ExtentLength = totalSizeBytes
+		item.dirEntryJoliet[0].ExtentLength = dirEntriesSize(item.dirEntryJoliet)
 	} else {
-		item.dirEntry[0].ExtentLength = totalSizeBytes
+		item.dirEntry[0].ExtentLength = dirEntriesSize(item.dirEntry)
 	}
 
 	if parent == nil {
@@ -618,20 +607,12 @@ func (viso *VirtualISO) writeFSStructures(gameCode string) error {
 
 	// iso directories
 	for _, item := range viso.rootDir {
-		for _, dirEntry := range item.dirEntry {
-			dirEntry.encode(&viso.fsBuf)
-		}
-
-		viso.fsBuf.padLastSector()
+		viso.fsBuf.appendDirEntries(item.dirEntry)
 	}
 
 	// joliet directories
 	for _, item := range viso.rootDir {
-		for _, dirEntry := range item.dirEntryJoliet {
-			dirEntry.encode(&viso.fsBuf)
-		}
-
-		viso.fsBuf.padLastSector()
+		viso.fsBuf.appendDirEntries(item.dirEntryJoliet)
 	}
 
 	return nil
